@@ -777,6 +777,10 @@ class NameOrd(Stream):
                 return "Name and InlineName feed different bytes to the hasher"
             if eq[0] == "true" and hf[0] != hf[2]:
                 return "equal names hash differently"
+            hs = d.get("HS", "").split(",")
+            if len(hs) == 4 and eq[0] == "true" and (hs[0] != hs[2] or hs[1] != hs[3]):
+                return ("equal names make different sequences of Hasher calls (%s vs %s; %s vs %s): they hash differently under any "
+                        "hasher that is sensitive to call boundaries (std::hash::Hasher: equal values must make exactly the same calls)" % (hs[0], hs[2], hs[1], hs[3]))
             if hf[0] != (la.hex() or "-"):
                 return "hash feed is not the case-folded text"
             eqs = d.get("EQS", "-").split(",")
@@ -1587,7 +1591,7 @@ STREAMS.update({
     "udpfilter": net_stream("udpfilter", "udpfilter", "before the genuine response the server sends 0..12 datagrams of 14 non-matching kinds (empty, 5 and 11 bytes, random, id+1, id byte-swapped, one letter off, wrong type, wrong class, QDCOUNT 0/2, truncated question, header only, self-pointer name) 8 ms apart, then a matching one (genuine, case-flipped question, echoed query) or none, then more junk. 4 clients.", 96, 2000),
     "strategy": net_stream("strategy", "strategy", "3 strategies x {untruncated, truncated} UDP answers preceded by 0-4 ignored datagrams x TCP answers (whole, segmented, with trailing bytes) x 4 clients; the server records datagrams and TCP connections.", 96, 1600),
     "tcpframe": net_stream("tcpframe", "tcpframe", "TCP-only: prefix+body split at 1-6 random points with 3-8 ms gaps, early close at 0,1,2,3,half,N,N+1,N+2 bytes, announced length around the caller buffer (buf-1, buf, buf+1, 65535), padded bodies at the buffer boundary, trailing garbage, zero-length body x 4 clients.", 96, 2000),
-    "timing": net_stream("timing", "timing", "query_timeout 300 ms / none, lifetime 1050 ms: silence, answer after 1-3 timeouts, junk every 25 ms across whole attempts (then answer or silence), TCP stall after 0/1/5 bytes, TCP drip at 15/60 ms per byte x 4 clients; transmissions must come at multiples of the timeout (+-130 ms), identical, and the call must end by lifetime+250 ms; after 1-2 silent attempts a truncated answer then a TCP server that stalls before, inside or after the length prefix or accepts late; timing-only mismatches are retried twice.", 80, 720),
+    "timing": net_stream("timing", "timing", "query_timeout 300 ms / none, lifetime 1050 ms: silence, answer after 1-3 timeouts, junk every 25 ms across whole attempts (then answer or silence), TCP stall after 0/1/5 bytes, TCP drip at 15/60 ms per byte x 4 clients; transmissions must come at multiples of the timeout (+-130 ms), identical, and the call must end by lifetime+250 ms; after 1-2 silent attempts a truncated answer then a TCP server that stalls before, inside or after the length prefix or accepts late; timing-only mismatches are a first prefix byte that arrives late and then nothing; a 450 ms pause (longer than query_timeout, inside the lifetime) after the prefix and mid-body; retried twice.", 96, 864),
     "history": net_stream("history", "history", "2-6 queries on one client object: raw and typed (A/AAAA/TXT), answered, timed out, refused for a bad name, truncated with oversized/short TCP answers, a malformed datagram followed by a large answer, async queries dropped mid-flight, with late responses to earlier queries delivered during later ones; each query must behave as on a fresh client. 4 clients.", 64, 800),
 })
 
